@@ -202,6 +202,12 @@ func replayTopic(tc tCase, dir string) *tObs {
 
 	nd, err := startNode(dir, func(o *nsqd.Options) {
 		o.MemQueueSize = 10
+		if tc.Situation == "backlog" {
+			// everything goes through the disk queues, and their metadata is written at once: what a channel holds is what
+			// a channel of the same name would find on the data path
+			o.MemQueueSize = 0
+			o.SyncEvery = 1
+		}
 		o.MsgTimeout = 10 * time.Minute
 		o.MaxMsgTimeout = 20 * time.Minute
 	})
@@ -288,6 +294,36 @@ func replayTopic(tc tCase, dir string) *tObs {
 		if post("/pub?topic=t", []byte("m1")) != 200 {
 			return fail("pub m1")
 		}
+	case "backlog":
+		// m1 is copied to c (no consumer there) before anything else starts
+		if post("/pub?topic=t", []byte("m1")) != 200 {
+			return fail("pub m1")
+		}
+		select {
+		case a := <-g.arrived:
+			dispatch(a)
+			pumpConsumed = pumpArrivals
+		case <-time.After(5 * time.Second):
+			return fail("the pump did not reach its copy gate with m1")
+		}
+		c0 := 0
+		if a := pumpAt; a != nil {
+			pumpAt = nil
+			g.release(a)
+		}
+		for i := 0; i < 2500; i++ {
+			evmu.Lock()
+			c0 = copied
+			evmu.Unlock()
+			if c0 > 0 {
+				break
+			}
+			time.Sleep(2 * time.Millisecond)
+		}
+		if c0 == 0 {
+			return fail("m1 was not copied to c")
+		}
+		obs.POrder = "" // the set-up copy is not part of the schedule
 	}
 
 	// ---- the operations ------------------------------------------------------------------------------------------
@@ -313,8 +349,12 @@ func replayTopic(tc tCase, dir string) *tObs {
 		case "GETD":
 			a.gates = []string{"getchannel.beforeHandshake|t#"}
 			a.launch = httpOp("/channel/create?topic=t&channel=d", nil)
+		case "GETC":
+			a.gates = []string{"getchannel.beforeHandshake|t#"}
+			a.launch = httpOp("/channel/create?topic=t&channel=c", nil)
 		case "DELC":
-			a.gates = []string{"chandelete.afterDelete|t/c#"}
+			a.gates = []string{"chan.exit.flag|t/c#", "chan.exit.clientsClosed|t/c#", "empty.afterReset|t/c#", "empty.afterClients|t/c#",
+				"chandelete.afterDelete|t/c#"}
 			a.launch = httpOp("/channel/delete?topic=t&channel=c", nil)
 		case "PAUSE":
 			a.launch = httpOp("/topic/pause?topic=t", nil)
